@@ -216,7 +216,7 @@ def install(ex):
             raise Panic('unwrap on Err', c)
         return a[0].f[0]
 
-    @M(r'^Option::<.*>::unwrap_or$')
+    @M(r'^Option::<.*>::unwrap_or(::<.*>)?$')
     def option_unwrap_or(ex, c, a):
         return a[0].f[0] if a[0].variant == 1 else a[1]
 
@@ -242,11 +242,11 @@ def install(ex):
     def result_is_err(ex, c, a):
         return deref(a[0]).variant == 1
 
-    @M(r'^Result::<.*>::ok$')
+    @M(r'^Result::<.*>::ok(::<.*>)?$')
     def result_ok(ex, c, a):
         return some(a[0].f[0]) if a[0].variant == 0 else none()
 
-    @M(r'^Option::<.*>::ok_or$')
+    @M(r'^Option::<.*>::ok_or(::<.*>)?$')
     def option_ok_or(ex, c, a):
         return ok(a[0].f[0]) if a[0].variant == 1 else err(a[1])
 
@@ -518,6 +518,34 @@ def install(ex):
         view = ListV('slice', l.items[s_:e_])
         return Ref({'v': view}, 'v')
 
+    @M(r'^<(Vec<.*>|\[.*\]) as Index<(std::ops::)?(RangeTo|RangeFrom|RangeFull|RangeInclusive|RangeToInclusive)(<usize>)?>>::index$|^<(Vec<.*>|\[.*\]) as IndexMut<(std::ops::)?(Range|RangeTo|RangeFrom|RangeFull)(<usize>)?>>::index_mut$')
+    def index_other_ranges(ex, c, a):
+        l = deref(a[0])
+        r = a[1]
+        n = len(l.items)
+        kind = re.search(r'(RangeToInclusive|RangeInclusive|RangeTo|RangeFrom|RangeFull|Range)', c.split(' as ')[1]).group(1)
+        cz = lambda x: x.v if x.conc else ex.concretize_int(x, list(range(n + 2)), 'slice bound')
+        if kind == 'RangeTo':
+            s_, e_ = 0, cz(r.f[0])
+        elif kind == 'RangeFrom':
+            s_, e_ = cz(r.f[0]), n
+        elif kind == 'RangeFull':
+            s_, e_ = 0, n
+        elif kind == 'RangeInclusive':
+            s_, e_ = cz(r.f[0]), cz(r.f[1]) + 1
+        elif kind == 'RangeToInclusive':
+            s_, e_ = 0, cz(r.f[0]) + 1
+        else:
+            s_, e_ = cz(r.f[0]), cz(r.f[1])
+        if s_ > e_:
+            raise Panic('slice index starts after end', c)
+        if e_ > n:
+            raise Panic('range end index out of range for slice', c)
+        if 'index_mut' in c:
+            raise Unsupported('mutable sub-slice')
+        view = ListV('slice', l.items[s_:e_])
+        return Ref({'v': view}, 'v')
+
     @M(r'^std::slice::<impl \[.*\]>::to_vec$|^core::slice::<impl \[.*\]>::to_vec$|^<\[.*\]>::to_vec$')
     def slice_to_vec(ex, c, a):
         return ListV('Vec', [clone_val(x) for x in deref(a[0]).items])
@@ -744,6 +772,91 @@ def install(ex):
     @M(r'^HashMap::<.*>::len$')
     def hashmap_len(ex, c, a):
         return Int(64, len(deref(a[0]).items))
+
+    # ------------------------------------------------------------------ DashMap (same finite-map model; the guard types deref to the value)
+    @M(r'^<(dashmap::)?DashMap<.*> as Default>::default$|^DashMap::<.*>::(new|default|with_hasher)$')
+    def dashmap_new(ex, c, a):
+        return MapV('DashMap', [])
+
+    @M(r'^DashMap::<.*>::entry$')
+    def dashmap_entry(ex, c, a):
+        m = deref(a[0])
+        i = map_find(ex, m, a[1])
+        if i is None:
+            return Agg('Entry', {0: Agg('VacantEntry', {0: a[0], 1: a[1]})}, 1)
+        return Agg('Entry', {0: Agg('OccupiedEntry', {0: a[0], 1: i})}, 0)
+
+    @M(r'^dashmap::mapref::entry::VacantEntry::<.*>::insert$')
+    def dashmap_vacant_insert(ex, c, a):
+        inner = a[0]
+        m = deref(inner.f[0])
+        m.items.append((inner.f[1], a[1]))
+        return Agg('RefMut', {0: Ref(_PairRef(m.items, len(m.items) - 1), 1)})
+
+    @M(r'^dashmap::mapref::entry::OccupiedEntry::<.*>::(get|get_mut)$')
+    def dashmap_occupied_get(ex, c, a):
+        inner = deref(a[0])
+        return Ref(_PairRef(deref(inner.f[0]).items, inner.f[1]), 1)
+
+    @M(r'^DashMap::<.*>::(get|get_mut)::<')
+    def dashmap_get(ex, c, a):
+        m = deref(a[0])
+        i = map_find(ex, m, deref(a[1]))
+        if i is None:
+            return none()
+        return some(Agg('DashRef', {0: Ref(_PairRef(m.items, i), 1)}))
+
+    @M(r'^<dashmap::mapref::one::Ref(Mut)?<.*> as Deref(Mut)?>::deref(_mut)?$')
+    def dashmap_ref_deref(ex, c, a):
+        return deref(a[0]).f[0]
+
+    @M(r'^DashMap::<.*>::insert$')
+    def dashmap_insert(ex, c, a):
+        m = deref(a[0])
+        i = map_find(ex, m, a[1])
+        if i is None:
+            m.items.append((a[1], a[2]))
+            return none()
+        old = m.items[i][1]
+        m.items[i] = (m.items[i][0], a[2])
+        return some(old)
+
+    @M(r'^DashMap::<.*>::remove::<')
+    def dashmap_remove(ex, c, a):
+        m = deref(a[0])
+        i = map_find(ex, m, deref(a[1]))
+        if i is None:
+            return none()
+        k, v = m.items.pop(i)
+        return some(Agg('tuple', {0: k, 1: v}))
+
+    @M(r'^DashMap::<.*>::contains_key::<')
+    def dashmap_contains(ex, c, a):
+        return map_find(ex, deref(a[0]), deref(a[1])) is not None
+
+    @M(r'^DashMap::<.*>::len$')
+    def dashmap_len(ex, c, a):
+        return Int(64, len(deref(a[0]).items))
+
+    # ------------------------------------------------------------------ TypeId / tracing level checks
+    @M(r'^TypeId::of::<|^std::any::TypeId::of::<')
+    def typeid_of(ex, c, a):
+        t = re.search(r'of::<(.*)>$', c).group(1)
+        import zlib
+        return Agg('TypeId', {0: Int(64, zlib.crc32(t.split('::')[-1].encode()) + (1 << 40))})
+
+    @M(r'^<TypeId as PartialEq>::(eq|ne)$')
+    def typeid_eq(ex, c, a):
+        r = ex.binop('Eq', deref(a[0]).f[0], deref(a[1]).f[0], False)
+        return b_not(r) if c.endswith('ne') else r
+
+    @M(r'^<Level as PartialOrd<LevelFilter>>::(le|lt|ge|gt)$|^<LevelFilter as PartialOrd<Level>>::')
+    def tracing_level_disabled(ex, c, a):
+        return False        # logging compiled out of the model: no event is enabled
+
+    @M(r'^LevelFilter::current$|^DefaultCallsite::|^Interest::|^FieldSet::|^<DefaultCallsite as Callsite>::|^Metadata::|^ValueSet::|^Event::')
+    def tracing_misc(ex, c, a):
+        return Opaque('tracing')
 
     # ------------------------------------------------------------------ BTreeMap / BTreeSet: association list kept sorted by the crate's own Ord::cmp MIR
     def bt_key_type(c):
